@@ -91,9 +91,12 @@ impl DeserializeError for TokErr {
 }
 
 impl MergeWithError<TokErr> for TokErr {
-    fn merge(self_: Option<Self>, other: TokErr, _l: ValuePointerRef) -> ControlFlow<Self, Self> {
+    fn merge(self_: Option<Self>, other: TokErr, l: ValuePointerRef) -> ControlFlow<Self, Self> {
+        // a hand-over leaves a trace of its own: an extractor that hands the error over once more
+        // than deserr::deserialize does is not returning "exactly the deserr error"
         let mut v = self_.map(|s| s.0).unwrap_or_default();
         v.extend(other.0);
+        v.push(format!("handed-over@{}", loc_string(l)));
         ControlFlow::Continue(TokErr(v))
     }
 }
@@ -182,18 +185,33 @@ fn actix_resp(e: &actix_web::Error) -> (u16, Vec<u8>, bool, u16) {
     (status, body, tok, announced)
 }
 
-/// What is left of an actix request body once the extractor is done with the request.
+/// What is left of an actix request body once the extractor is done with the request: the next
+/// few chunks (a bounded look, so that a multi-megabyte body left unread stays unread and costs
+/// neither steps nor memory). Both legs see the same scripted stream, so what they find left is
+/// comparable chunk for chunk.
 async fn drain(mut p: actix_web::dev::Payload) -> String {
     use futures::StreamExt;
     let mut bytes: Vec<u8> = vec![];
-    loop {
+    let mut chunks = 0usize;
+    let mut ended = false;
+    while chunks < 24 && bytes.len() < 2048 {
         match p.next().await {
-            None => break,
-            Some(Ok(b)) => bytes.extend_from_slice(&b),
-            Some(Err(e)) => return format!("{} bytes then the stream error {e}", bytes.len()),
+            None => {
+                ended = true;
+                break;
+            }
+            Some(Ok(b)) => {
+                chunks += 1;
+                bytes.extend_from_slice(&b);
+            }
+            Some(Err(e)) => return format!("{} bytes in {chunks} chunks then the stream error {e}", bytes.len()),
         }
     }
-    format!("{} bytes {:?}", bytes.len(), String::from_utf8_lossy(&bytes))
+    let mut h = 0xcbf2_9ce4_8422_2325u64;
+    for x in &bytes {
+        h = (h ^ *x as u64).wrapping_mul(0x0000_0100_0000_01B3);
+    }
+    format!("{} bytes in {chunks} chunks (fnv {h:016x}){}", bytes.len(), if ended { ", then the end of the stream" } else { ", more follows (not read)" })
 }
 
 /// Poll a future that never waits (collecting an in-memory response body).
